@@ -1,8 +1,37 @@
-import AlgoVerif.Common
-/-! Line-protocol component for C09 — not built yet. -/
+import AlgoVerif.Driver.C08
+import AlgoVerif.Spec.C09
+/-!
+Line-protocol component for C09: the ops of C08 plus
+
+* `post <op>` → `ok valid=… noempty=… nounit=… reach=… nocycle=… noleftrec=… leftfactored=… cnf=… loosecnf=…`:
+  every post-condition of `Spec/C09.lean` evaluated on the Model's result of `<op>` (`noempty` relative to
+  the input grammar) | `panic` | `hang`;
+* `parsers` → `ok unchanged` (the implementation side hands the grammar to `predictive.BuildParsingTable`
+  and the three LR table constructors and prints `ok MUTATED by <constructor>` when the caller's grammar
+  differs from a clone taken before the call).
+-/
 namespace AlgoVerif.C09.Driver
+open AlgoVerif AlgoVerif.Gram AlgoVerif.C08 AlgoVerif.C09.Spec
+
+def showPost (orig g : G) : String :=
+  s!"ok valid={showBool (validB g)} noempty={showBool (noEmptyB orig g)} nounit={showBool (noUnitB g)} " ++
+  s!"reach={showBool (allReachableB g)} nocycle={showBool (noCycleB g)} noleftrec={showBool (noLeftRecB g)} " ++
+  s!"leftfactored={showBool (leftFactoredB g)} cnf={showBool (isCNFB g)} loosecnf={showBool (looseCNFB g)}"
+
+def postOp (g : G) (ws : List String) : Option String :=
+  match ws with
+  | ["post", op] =>
+    match applyOp op g with
+    | some (.ok g') => some (showPost g g')
+    | some .panic => some "panic"
+    | some .diverge => some "hang"
+    | none => none
+  -- the grammar handed to a parser constructor: the Model is a function of the grammar value, which it
+  -- cannot change; the harness compares the caller's grammar with a clone taken before the call
+  | ["parsers"] => some "ok unchanged"
+  | _ => none
 
 def runCase (_hdr : List String) (ops : List String) : List String :=
-  ops.map fun _ => "bad-case"
+  AlgoVerif.C08.Driver.runWith postOp ops
 
 end AlgoVerif.C09.Driver
